@@ -137,6 +137,22 @@ TEXT['C06'] = (
     'reads never write); thorough tier enumerates every single-fault placement on sampled writes.',
     'DESIGN.md 3.6')
 
+TEXT['C07'] = (
+    'Seeded search over histories in which modeller and writer clients interleave over one generated mechanism (species of '
+    'NASA-7 / NASA-9 / Shomate type on a gas, a bulk and 1-2 interacting-interface phases; 0-40 SurfaceReactions with user, '
+    'auto or mixed ids, adsorption or not, explicit transition states, BEPs or given A/Ea; 0-10 named or unnamed lateral '
+    'interactions): phases are built with, without or with an empty species list or by organize_phases (fresh or re-used rows, '
+    'before or after species were placed) and populated by append / extend / remove / pop / clear; write_cti, '
+    'write_thermo_yaml and write_yaml are called repeatedly with reordered and partial reaction lists, every supported unit '
+    'system, Motz-Wise on/off, Python / NumPy / string-with-unit / omitted reactor values, fresh or re-used option '
+    'dictionaries, to a fault-injecting file system or as text, under a simulated clock. Oracle: every phase lists exactly '
+    'what an independent membership model says after every step; the thermo YAML loads with yaml.safe_load and the CTI text '
+    'executes under the repo\'s own CTI interpreter; each species once with composition, occupancy, ranges and coefficients; '
+    'each reaction once, at its position, with a unique id and rate parameters equal to those of a twin model in the requested '
+    'units; phases with their species, elements and site density; interactions with members, thresholds and converted '
+    'strengths; reactor YAML carries every supplied value with its unit and nothing else. Disk clauses as C05.',
+    'DESIGN.md 3.7')
+
 TECHNIQUE = 'deterministic simulation with fault injection (seeded schedule/history search, reference-model oracle, ddmin replay)'
 
 
